@@ -174,7 +174,7 @@ func runOne(pr *rules.Property, repo string, cfg core.Config) (rp *core.Report, 
 	rp = core.NewReport(pr.Meta.ID, p)
 	rp.Count("module_packages", len(p.Pkgs))
 	rp.Count("module_functions", len(p.ModuleFuncs()))
-	pr.Run(p, rp)
+	pr.RunLocked(p, rp)
 	if nBad(rp) == 0 || os.Getenv("SPG_NO_NORMALISE") != "" {
 		return rp, nil
 	}
@@ -262,7 +262,7 @@ func runNormalised(pr *rules.Property, repo string, cfg core.Config, p *core.Pro
 	rp = core.NewReport(pr.Meta.ID, cur)
 	rp.Count("module_packages", len(cur.Pkgs))
 	rp.Count("module_functions", len(cur.ModuleFuncs()))
-	pr.Run(cur, rp)
+	pr.RunLocked(cur, rp)
 	if os.Getenv("SPG_DEBUG") != "" {
 		fmt.Fprintf(os.Stderr, "normal form (expanded %v): %d open obligation(s)\n", inlined, nBad(rp))
 		for _, o := range rp.Obs {
@@ -289,7 +289,7 @@ func runFixture(pr *rules.Property, fixtures string) (res map[string]interface{}
 		return nil, lerr
 	}
 	rp := core.NewReport(pr.Meta.ID, p)
-	pr.Run(p, rp)
+	pr.RunLocked(p, rp)
 	fired := map[string][]string{}
 	for _, o := range rp.Obs {
 		if o.Status == core.Violated || o.Status == core.Undecided {
